@@ -20,6 +20,11 @@ func rulesC18(c *Ctx) {
 	c18GRPC(c)
 	c18HTTPRetry(c)
 	c18GRPCRetry(c)
+	// the HTTP / gRPC retry policy builders return retrypolicy builders: the delay function they install must
+	// survive further configuration, and the delay precedence must honour it
+	buildersStore(c, "retrypolicy")
+	c13Builders(c)
+	c13GetDelay(c)
 }
 
 func rulesC19(c *Ctx) {
@@ -37,6 +42,12 @@ func rulesC19(c *Ctx) {
 	c.Rule("retry-timer")
 	retryLoop(c, map[string]bool{"wait": true})
 	c05Wait(c)
+	// a lock that is not released on some path parks every later goroutine of the execution forever
+	execStateMethods(c, nil)
+	for _, pkg := range []string{"failsafe", "circuitbreaker", "ratelimiter"} {
+		checkUnlock(c, pkg)
+	}
+	c08Blocking(c)
 }
 
 func isCtxCall(t *T, method string, recv *T) bool {
